@@ -368,6 +368,22 @@ int main(int argc, char **argv) {
                     long long leaked = hf::live_blocks() - before;
                     if (leaked != 0) { o << "LEAK zero_copy view passed by reference (copy, assign, amg, rebuild, make_solver): " << leaked << " block(s) still live after destruction"; return; }
                 }
+                if (ptr != m.ptr || col != m.col || std::memcmp(val.data(), m.val.data(), val.size() * 8) != 0) { o << "USER-MATRIX-MODIFIED after the by-reference operations on a zero_copy view"; return; }
+                // a view that is re-used as the target of an assignment: it must let go of the user's arrays (never free or
+                // overwrite them) and own its new copy
+                {
+                    long long before = hf::live_blocks();
+                    {
+                        auto V = adapter::zero_copy((size_t)m.n, ptr.data(), col.data(), val.data());
+                        backend::crs<double, ptrdiff_t, ptrdiff_t> other(*V);
+                        for (size_t q = 0; q < other.nnz; ++q) other.val[q] *= 2;
+                        *V = other;
+                        if ((const void*)V->val == (const void*)val.data()) { o << "USER assignment into a zero_copy view wrote through to the user's arrays"; return; }
+                        if (V->nnz != other.nnz || (V->nnz && V->val[0] != other.val[0])) { o << "USER assignment into a zero_copy view did not copy the source"; return; }
+                    }
+                    long long leaked = hf::live_blocks() - before;
+                    if (leaked != 0) { o << "LEAK assignment into a zero_copy view: " << leaked << " block(s) still live (or the user's arrays were released: negative)"; return; }
+                }
                 if (ptr != m.ptr || col != m.col || std::memcmp(val.data(), m.val.data(), val.size() * 8) != 0) { o << "USER-MATRIX-MODIFIED"; return; }
                 o << "OK normal";
             }, 60.0);
